@@ -150,6 +150,23 @@ def step : List String → String
         | some v => Char.ofNat (48 + v)
         | none => '-')
     | _, _ => "bad-op"
+  | ["stage", d, enums, _expect] =>
+    -- `BeaconConfig.from_bytes` on a payload whose configuration block is found in the raw view: the PE artifacts are
+    -- `find_compile_stamps(fh)` then `find_architecture(fh)` on the same file object (defaults 0 / 1024), the version follows
+    match bytesTok d, natsTok enums with
+    | some d, some enums =>
+      let r1 := peCall (mkFile .bytesIO d 0) (some 0) 1024 .stamps
+      match r1.1 with
+      | .stamps (.error e) => "exc " ++ e.name
+      | .stamps (.ok (c, x)) =>
+        let r2 := peCall r1.2 (some 0) 1024 .arch
+        match r2.1 with
+        | .arch a =>
+          let an := match a with | none => "none" | some a => a.name
+          s!"ok {an} {showOptInt c} {showOptInt x} " ++ showPy showNats (configVersion x enums)
+        | _ => "bad-op"
+      | _ => "bad-op"
+    | _, _ => "bad-op"
   | ["cfg", stamp, enums] =>
     match optTok intTok stamp, natsTok enums with
     | some stamp, some enums => showPy showNats (configVersion stamp enums)
